@@ -6,21 +6,25 @@ import os
 VERIF = os.path.dirname(os.path.dirname(os.path.abspath(__file__)))
 
 COMMON_NOTE = ("Trusted: Coq 8.16.1 kernel; no axioms (Print Assumptions output is recorded per theorem in the "
-               "evidence); hand-written Gallina model tied to /repo by regenerated tables (harness/gen_tables.py) "
+               "evidence); hand-written Gallina model tied to /repo by regenerated tables (harness/gen_tables.py), by "
+               "re-translation of yarl/_path.py from the source with a proof of equality to the model (harness/gen_model.py, C15) "
                "and by a differential correspondence check of the extracted model (ExtrOcamlBasic only) against "
                "both quoting backends built from the working tree; extracted theorem predicates applied to the "
                "implementation's outputs.")
 
-TECH = "Coq proof over a hand-written Gallina model + extracted-model differential correspondence + extracted theorem predicates on the implementation's outputs"
+TECH = ("Coq proof (Rocq 8.16.1, kernel-checked, no axioms) over a hand-written Gallina model; tie to the source: tables regenerated from /repo each run, "
+        "extracted-model differential correspondence against both backends, extracted theorem predicates evaluated on the implementation's outputs")
 
 CHECKS = {
     "C01": {
-        "text": ("Proved (unbounded, both backends, all strings incl. lone surrogates and malformed escapes): every quoter output is ASCII, "
-                 "every '%' starts an upper-case escape and every literal belongs to the RFC 3986 alphabet of its component "
-                 "(C01_quoter_output, policy table by complete sweep of the regenerated tables). The URL-level lifting (every entry "
-                 "point writes each component through the right quoter) is NOT proved: it is validated by running the same extracted "
-                 "predicate on the implementation's observations of 14k+ constructor/build/modifier/join programs per run. Known "
-                 "findings F17 F20 F22 F26 are excluded by extracted classifiers."),
+        "text": ('Proved (unbounded, both backends, all strings incl. lone surrogates and malformed escapes): every quoter output is '
+                 "ASCII, every '%' starts an upper-case escape and every literal belongs to the RFC 3986 alphabet of its component "
+                 '(C01_quoter_output; policy table by complete sweep of the regenerated tables). URL level, for EVERY operation sequence '
+                 '(C01_programs, induction over the instruction list, one preservation lemma per operation): the stored path, query and '
+                 'fragment of every URL produced by any program of auto-encoding constructors (URL(str), build), the 19 modifiers and join '
+                 'satisfy the per-component predicate. PARTIAL: the userinfo/host part of the authority and the assembled string form over '
+                 "operation sequences (with_user proved alone) are validated by the same extracted predicate on the implementation's "
+                 'observations of 14k+ programs per run. Known findings F17 F20 F22 F26 are excluded by extracted classifiers.'),
         "design_ref": "DESIGN.md section 7 C01",
     },
     "C02": {
@@ -33,9 +37,12 @@ CHECKS = {
         "design_ref": "DESIGN.md section 7 C02",
     },
     "C03": {
-        "text": ("Proved: requoting is idempotent for the four requoters (all strings), dot-segment removal is idempotent. The URL-level "
-                 "fixed point str(URL(str(u))) = str(u) with identical components is NOT proved (partial): it is checked on the "
-                 "implementation by re-parsing the string form of every generated URL (two-stage programs), known findings F14 F15 F17 excluded."),
+        "text": ('Proved: requoting is idempotent for the four requoters (all strings); dot-segment removal is idempotent; the parser '
+                 'inverts printing (split_url (unsplit_result parts) = parts on re-parse-safe components, F14/F15 refuted witnesses); '
+                 "canonical components re-encode to themselves; the constructor's output is canonical; URL-level fixed point "
+                 'str(URL(str(u))) = str(u) with identical components for inputs with no authority or a plain ASCII host name. PARTIAL: '
+                 'authorities with userinfo, IDNA/IP hosts or ports at URL level are checked on the implementation by re-parsing the '
+                 'string form of every generated URL (two-stage programs); known findings F14 F15 F17 F30 excluded.'),
         "design_ref": "DESIGN.md section 7 C03",
     },
     "C04": {
@@ -54,20 +61,22 @@ CHECKS = {
         "design_ref": "DESIGN.md section 7 C05",
     },
     "C06": {
-        "text": ("Proved: unquote(quote(t)) = t for (QUOTER,UNQUOTER), (PATH_QUOTER,PATH_UNQUOTER), (FRAGMENT_QUOTER,UNQUOTER), both backends, "
-                 "every surrogate-free string; the strict UTF-8 classifier accepts exactly the encoder's output for all scalar values "
-                 "(symbolic proof); the compiled unquoter's unchanged shortcut is sound; the decoded accessors are definitionally the "
-                 "unquoters applied to the raw components. PARTIAL: equality of the unquoter models with the independent decoding "
-                 "specification Spec/Decode.v on all raw texts (malformed escapes verbatim, '+' only in queries, path_safe) is the "
-                 "extracted predicate c06_pred checked on the implementation and model; URL-level read-back through build/with_*/'/'/"
-                 "joinpath is checked, not proved. Known finding F18 (query: U+FFFD)."),
+        "text": ('Proved: the unquoter models (both backends, four configurations) equal the independent greedy UTF-8 percent-decoding '
+                 "specification Spec/Decode.v on EVERY string (malformed or undecodable escapes verbatim, '+' only in queries, path_safe "
+                 'keeping %2F and %25), hence every decoded accessor is that decoding of its raw component; unquote(quote(t)) = t for the '
+                 "accessor pairs; query parts read back through parse_qsl; the strict UTF-8 classifier accepts exactly the encoder's "
+                 "output for all scalar values (symbolic proof); the compiled unquoter's unchanged shortcut is sound. PARTIAL: URL-level "
+                 "read-back through build/with_*/'/'/joinpath is the extracted predicate c06_pred on the implementation, not proved. Known "
+                 'finding F18 (query: U+FFFD).'),
         "design_ref": "DESIGN.md section 7 C06",
     },
     "C07": {
-        "text": ("Proved: split_url is the RFC 3986 Appendix B decomposition of the cleaned input whenever it succeeds, fails only with "
-                 "ValueError, the cleaning step and scheme alphabet are the specified ones, encoded=True stores the parts verbatim. The "
-                 "authority split and the recomposition clause are checked by extracted predicates on the implementation (exhaustive "
-                 "delimiter strings), not proved."),
+        "text": ('Proved: split_url is the RFC 3986 Appendix B decomposition of the cleaned input whenever it succeeds, fails only with '
+                 'ValueError, the cleaning step and scheme alphabet are the specified ones, encoded=True stores the parts verbatim; '
+                 "split_netloc is the authority split of the statement (last '@', first ':' of the userinfo, ':' after the host or ']') on "
+                 'all strings. PARTIAL: the recomposition clause and the consistency of the stored authority with the reported parts are '
+                 'extracted predicates on the implementation (exhaustive delimiter strings, Unicode aliases of scheme characters and '
+                 'digits), not proved. Known finding F17.'),
         "design_ref": "DESIGN.md section 7 C07",
     },
     "C08": {
@@ -80,12 +89,13 @@ CHECKS = {
         "design_ref": "DESIGN.md section 7 C08",
     },
     "C09": {
-        "text": ("Proved: pickling keeps exactly the five stored strings; the restored object is == with the same key; all 36 observed "
-                 "accessors agree whenever the eagerly stored authority parts are what a lazy split derives; encode_url stores its "
-                 "authority as make_netloc of exactly the eager parts; split_netloc inverts make_netloc for every delimiter-free "
-                 "user/password, bracket-free or bracketed host and port 0..65535 (complete sweep). PARTIAL: that encode_url's parts "
-                 "always meet those side conditions is validated by correspondence (eager object vs unpickled twin, all accessors), not "
-                 "proved; F7 (empty host) is a refuted witness, F17 a known finding."),
+        "text": ('Proved: pickling keeps exactly the five stored strings; the restored object is == with the same key; all 36 observed '
+                 'accessors agree whenever the eagerly stored authority parts are what a lazy split derives; encode_url stores its '
+                 'authority as make_netloc of exactly the eager parts; split_netloc inverts make_netloc (ports by complete sweep); closed '
+                 'for the constructor: eager user/password delimiter-free, port in range, lazy = eager whenever the stored host is '
+                 'non-empty and well-formed. PARTIAL: the host side condition for IDNA/IP oracle outputs, and values derived from USED '
+                 '(hashed, printed, fully read) intermediates, are validated by correspondence (eager object vs unpickled twin, all '
+                 'accessors, ==, hash), not proved; F7 and F30 refuted witnesses, F17 known finding.'),
         "design_ref": "DESIGN.md section 7 C09",
     },
     "C11": {
@@ -102,36 +112,42 @@ CHECKS = {
         "design_ref": "DESIGN.md section 7 C10",
     },
     "C12": {
-        "text": ("Proved: the type gate of query values (str/int/float accepted; inf/nan ValueError; bool/None/other TypeError); None clears "
-                 "(with_query, update_query) or is a no-op (extend_query); parse_qsl distributes over '&' hence extend_query appends the new "
-                 "pairs after the existing ones for every existing query; without_query_params re-serialises exactly the unnamed pairs. "
-                 "PARTIAL: 'serialised pairs read back unchanged' (parse_qsl inverts the query-part quoter) and the update clause of "
-                 "MultiDict.update are the extracted list-algebra predicate c12_pred checked on the implementation (13+ existing queries x "
-                 "4 operations x 180+ argument forms incl. signed zeros, list values, bool/None/inf/nan/bytes) and the model, not proved. "
-                 "Argument immutability is probed on the implementation."),
+        "text": ('Proved: the type gate of query values; None clears (with_query, update_query) or is a no-op (extend_query); parse_qsl '
+                 "distributes over '&' hence extend_query appends; parse_qsl inverts the serialisation of any list of pairs, so "
+                 'with_query(pairs) yields exactly its pairs in order; without_query_params re-serialises exactly the unnamed pairs. The '
+                 "update clause is REFUTED on the faithful model of multidict 6.2.0's MultiDict.update (C12_update_refuted, known finding "
+                 'F29) and proved for a single key. PARTIAL: mapping/list-valued/numeric arguments and the update clause outside F29 are '
+                 'the extracted list-algebra predicate c12_pred on the implementation (existing queries incl. non-canonically spelled keys '
+                 'x 4 operations x 190+ argument forms). Argument immutability is probed on the implementation.'),
         "design_ref": "DESIGN.md section 7 C12",
     },
     "C13": {
-        "text": ("Proved: raw_parts re-compose to raw_path (every URL whose path is empty or rooted under an authority), the suffix is a tail of "
-                 "the name, u / s is definitionally u.joinpath(s), with_suffix keeps the raw stem byte for byte and appends the quoted suffix. "
-                 "PARTIAL: name/parent of u / s, joinpath associativity and with_name's parent are the extracted predicate c13_pred checked on "
-                 "the implementation (26 base shapes x 21 segments, all pairs) and the model, not proved. Known finding F28."),
+        "text": ('Proved: raw_parts re-compose to raw_path (every URL whose path is empty or rooted under an authority), the suffix is a '
+                 'tail of the name, u / s is definitionally u.joinpath(s), with_suffix keeps the raw stem byte for byte and appends the '
+                 'quoted suffix; for u / s with a slash-free non-dot s: the path of the child, its raw and decoded name and the parts of '
+                 "its parent (F28 refuted witness for the root path without authority). PARTIAL: joinpath associativity and with_name's "
+                 'parent are the extracted predicate c13_pred on the implementation (26 base shapes x 21 segments, all pairs) and the '
+                 'model, not proved.'),
         "design_ref": "DESIGN.md section 7 C13",
     },
     "C14": {
-        "text": ("Proved: a reference with a different scheme or a base scheme outside USES_RELATIVE is returned unchanged; otherwise the five "
-                 "encoded components of join are exactly RFC 3986 5.2.2 (non-strict) with 5.2.3 merge and 5.2.4 remove_dot_segments "
-                 "(Spec/Resolve.v, transcribed independently) whenever the merged path is rooted (base with authority or rooted path, or "
-                 "empty/rooted reference path). PARTIAL: rootless base + rootless reference is outside the theorem; there known finding F19 "
-                 "(refuted witness) applies exactly when the merged path has a dot segment; everything else is checked by the extracted "
-                 "transform predicate on ~66k base x reference pairs per run (both backends)."),
+        "text": ('Proved: a reference with a different scheme or a base scheme outside USES_RELATIVE is returned unchanged; otherwise the '
+                 'five encoded components of join are exactly RFC 3986 5.2.2 (non-strict) with 5.2.3 merge and 5.2.4 remove_dot_segments '
+                 '(Spec/Resolve.v, transcribed independently) whenever the merged path is rooted. PARTIAL: rootless base + rootless '
+                 'reference is outside the theorem; there known finding F19 (refuted witness) applies exactly when the merged path has a '
+                 'dot segment; everything else is checked by the extracted transform predicate on ~75k base x reference pairs per run '
+                 "(both backends), including every reference of <= 4 segments over {.., ., '', g}."),
         "design_ref": "DESIGN.md section 7 C14",
     },
     "C15": {
-        "text": ("Unbounded theorems: the model of normalize_path equals RFC 3986 5.2.4 remove_dot_segments (transcribed independently, "
-                 "string level) on every rooted path, leaves no dot segment and is idempotent. The tie to the Python source is a "
-                 "differential run (exhaustive segment sequences plus random) of model, pure and compiled implementation, and the "
-                 "extracted theorem predicate evaluated on the implementation's outputs."),
+        "text": ('Proved: the model of normalize_path equals RFC 3986 5.2.4 remove_dot_segments (transcribed independently, string level) '
+                 'on every rooted path, leaves no dot segment and is idempotent; the functions of yarl/_path.py as RE-TRANSLATED FROM THE '
+                 'SOURCE on every run (harness/gen_model.py, Python ast -> Gallina, fail-closed) equal that model (C15_source_*), so these '
+                 'theorems hold of what the source says now; URL level, for EVERY operation sequence (C15_programs): under an authority '
+                 'the stored path is empty or rooted and has no dot segment - established by URL(str) and build, preserved by all 19 '
+                 'modifiers (/ and joinpath for encoded=True too) and join; without an authority the constructor keeps the path verbatim. '
+                 'PARTIAL: that the path equals RFC 5.2.4 of the supplied/merged text through build, / and joinpath is the extracted '
+                 'predicate c15_url_pred on the implementation (join: C14). Known finding F23.'),
         "design_ref": "DESIGN.md section 7 C15",
     },
     "C16": {
@@ -150,11 +166,13 @@ CHECKS = {
         "design_ref": "DESIGN.md section 7 C17",
     },
     "C18": {
-        "text": ("Proved: human_quote shows printable text without '%' and without the delimiters of its position unchanged (non-ASCII "
-                 "included), and for every text leaves none of those delimiters raw (the three unsafe sets are subsets of a delimiter set "
-                 "that never occurs inside an escape; 11 x 256 sweep). PARTIAL: the URL-level round trip URL(u.human_repr()) == u and the "
-                 "readability of every shown escape are the extracted predicate c18_pred checked on builds from 70 decoded texts x "
-                 "IDN/IPv4/IPv6 hosts (both backends), not proved. Known finding F13."),
+        "text": ("Proved: human_quote shows printable text without '%' and without the delimiters of its position unchanged, and never "
+                 'leaves such a delimiter raw; human_quote is a per-character rendering and RE-PARSING IT GIVES THE CANONICAL ENCODING OF '
+                 'THE DECODED TEXT: requoter(human_quote t) = plain quoter t for user/password, path and fragment (either backend, every '
+                 'surrogate-free t) and for the whole query string (C18_component_roundtrip, C18_stored_component_fixed, '
+                 'C18_query_roundtrip); side conditions on the regenerated tables by complete ASCII sweeps. PARTIAL: the URL-level '
+                 "composition (IDNA-decoded host, netloc assembly, the parser's split) is the extracted predicate c18_pred on builds from "
+                 '70 decoded texts x IDN/IPv4/IPv6 hosts (both backends), not proved. Known finding F13.'),
         "design_ref": "DESIGN.md section 7 C18",
     },
     "C19": {
